@@ -529,7 +529,9 @@ pub fn bushy_deep_streams(zlib: Option<(u8, u8)>) -> Vec<GenStream> {
     for seq in [vec![0usize, 1], vec![1, 0], vec![0, 2], vec![0, 0], vec![0, 1, 0], vec![2, 1, 2]] {
         for kind in 0..2 {
             let mut b = StreamBuilder::new(zlib);
-            push_history(&mut b, &h);
+            if kind == 0 {
+                push_history(&mut b, &h);
+            }
             for (i, &k) in seq.iter().enumerate() {
                 let last = i + 1 == seq.len();
                 if kind == 0 {
